@@ -86,7 +86,17 @@ def gen(r, tier):
     trs = [gen_transfer(r, i) for i in range(n)]
     for i, tr in enumerate(trs):
         tr["t"] = round(i * r.choice([0.0, 0.5, 400.0]), 3)
-    return {"transfers": trs, "net": faults.swarm(r, kinds=("drop", "dup", "delay"), fault_free=0.4)}
+    scn = {"transfers": trs, "net": faults.swarm(r, kinds=("drop", "dup", "delay"), fault_free=0.4)}
+    if r.chance(0.15):
+        # the path to the server is cut in the middle of a transfer and heals: shorter than the retransmission span
+        # the transfer goes on, longer it fails loudly -- and a transfer started after the heal works
+        scn["partition"] = {"t0": round(r.uniform(0.0, 0.3), 3), "dur": r.choice([0.5, 5.0, 30.0, 120.0])}
+        extra = gen_transfer(r, len(trs))
+        extra["misbehave"] = None
+        extra["t"] = round(max(t_["t"] for t_ in trs) + scn["partition"]["dur"] + 600.0, 3)
+        extra["after_heal"] = True
+        trs.append(extra)
+    return scn
 
 
 def systematic(tier):
@@ -364,6 +374,10 @@ def execute(sim, scn):
     me = sim.local_addr(client)
     specs = {tr["id"]: tr for tr in scn["transfers"]}
     server = RefServer7959(sim, common.PEER_IPS[0], 5683, specs)
+    if scn.get("partition"):
+        pt = scn["partition"]
+        sim.net.partitions.append((pt["t0"], pt["t0"] + pt["dur"], common.CLIENT_IP, common.PEER_IPS[0]))
+        sim.probe("partition")
     tracker = common.Tracker(sim)
 
     def start(tr):
@@ -482,7 +496,8 @@ def execute(sim, scn):
                     sim.anomaly("misbehaving-server-error-not-a-library-error", repr(exc))
                 continue
             # conforming server: failures are legitimate only when the network killed an exchange
-            if isinstance(exc, error.NetworkError) and faults.active(scn.get("net")):
+            if isinstance(exc, error.NetworkError) and (faults.active(scn.get("net")) or
+                                                        (scn.get("partition") and not tr.get("after_heal"))):
                 continue
             sim.violation("C05/conforming-transfer-failed", dict(ident, exc=repr(exc)))
             continue
